@@ -137,7 +137,7 @@ class Prop:
     id = "C43"
     level = "exploration"
     engine = "TH (controlled threads: baton passing, line-level pre-emption points, simulated locks/conditions/clock)"
-    quick_runs = 8000
+    quick_runs = 14000
     thorough_runs = 300000
     quick_budget = 90.0
     chunk = 100
